@@ -2,8 +2,8 @@ package main
 
 import (
 	"fmt"
-	"go/constant"
 	"go/ast"
+	"go/constant"
 	"go/token"
 	"go/types"
 	"strings"
@@ -24,13 +24,13 @@ var keyedInsert = map[string]string{
 
 // mapRangeSite - one `range` over a Go map
 type mapRangeSite struct {
-	u    *Universe
-	pkg  *packages.Package
-	rel  string
-	fn   *ast.FuncDecl
-	rs   *ast.RangeStmt
-	key  string // construct key
-	typ  string
+	u   *Universe
+	pkg *packages.Package
+	rel string
+	fn  *ast.FuncDecl
+	rs  *ast.RangeStmt
+	key string // construct key
+	typ string
 }
 
 func collectMapRanges(u *Universe, rels []string, fileFilter func(string) bool) []mapRangeSite {
@@ -310,7 +310,7 @@ func checkC11(c *Ctx) {
 		"(C11.sources) calls of time.Now/Since, math/rand, os.Getpid/Getppid, `go` and `select` statements in the core packages occur only in the listed functions; " +
 		"(C11.fmtptr) no fmt verb %p, and %v/%+v/%#v only on arguments whose static type cannot print an address; " +
 		"(C11.mapiter) library helpers that walk a map in unspecified order (maps.Keys/Values/All, reflect MapKeys/MapRange) are accepted only directly under slices.Sorted*; (C11.order) HashMap's Go map is ranged nowhere except in order-insensitive loops and every other observer uses keyOrder. " +
-		"NOT decided: that two whole runs print identical text (needs the Go runtime's own determinism), pkg/server/pm_server.go (process management, see C20)."
+		"NOT decided: that two whole runs print identical text (needs the Go runtime's own determinism), pkg/server/pm_server.go (process management, see C20). (C11.state = C16.singletons) no package-level mutable state: the same program gives the same result whatever ran before it in the process."
 	R.Assumptions = []string{
 		"Go's map iteration order is the only source of order nondeterminism inside a single-goroutine evaluation",
 		"functions in the keyed-insert table only write under the key they are given (reviewed, one line of reason each)",
@@ -457,6 +457,10 @@ func checkC11(c *Ctx) {
 		R.lost("C11.order", "pkg/exec.evalIterateStmt")
 	}
 	R.min("C11.order", 5)
+
+	// the same program gives the same result whatever ran before it in the process: no package-level mutable state
+	// (caches, pools) in the interpreter (rules of C16.singletons)
+	borrowRule(c, "C16", "C16.singletons", "C11.state")
 
 	// ---- C11.sources
 	// the documented exception 取随机数: the functions that implement the predefined value registered under that
